@@ -53,7 +53,7 @@ STUBBED = ["threading.Thread/Lock/Event, queue.Queue (simkit.cthreads, "
            "runs the real pox.lib.util PipePinger over a simulated os.pipe "
            "(pre-empted inside ping/pong), the other half a level-triggered "
            "stand-in"]
-EXPECT_PROBES = ["w1", "w2", "w3", "w4", "w5", "hub_inline", "hub_threaded",
+EXPECT_PROBES = ["w6", "w1", "w2", "w3", "w4", "w5", "hub_inline", "hub_threaded",
                  "policy_random", "policy_pct", "switch_in_recoco",
                  "real_pinger", "loop_on_application_thread",
                  "w2_low_priority_tasks"]
@@ -62,6 +62,18 @@ EXPECT_PROBES = ["w1", "w2", "w3", "w4", "w5", "hub_inline", "hub_threaded",
 def gen_plan(seed, tier):
   r = Rng(seed)
   w = r.wpick([(4, "w1"), (3, "w2"), (3, "w3"), (2, "w4"), (2, "w5")])
+  if Rng(mix(seed, "burst")).chance(0.02):
+    # W6: a burst of hand-overs while the scheduler is held, sized around
+    # the pinger's read size (its own real pinger, no line pre-emption:
+    # the point is how many wake-ups are pending when they are drained)
+    rb = Rng(mix(seed, "burst2"))
+    return {"prop": PROP, "seed": seed,
+            "cfg": {"workload": "w6", "threaded_hub": rb.chance(0.5),
+                    "policy": "random", "switch_p": 0.2, "pct_depth": 2,
+                    "idle_tasks": 0, "real_pinger": True, "app_loop": False,
+                    "no_trace": True, "step_cap": 400000},
+            "steps": [{"thread": 0,
+                       "n": rb.pick([1023, 1024, 1025, 2048, 3, 1024])}]}
   cfg = {"workload": w, "threaded_hub": r.chance(0.5),
          "policy": r.pick(["random", "random", "pct"]),
          "switch_p": r.pick([0.05, 0.15, 0.3, 0.6]),
@@ -136,7 +148,10 @@ def run_plan(plan):
   res = {"verdict": "ok"}
   world = ThreadsWorld(sim, cfg)
   try:
-    if rp:
+    if cfg.get("no_trace"):
+      eng = world.boot(trace_files=())
+      sim.probes["real_pinger"] += 1
+    elif rp:
       eng = world.boot(trace_files=("pox/lib/recoco/recoco.py",
                                     "pox/lib/util.py"))
       sim.probes["real_pinger"] += 1
@@ -165,7 +180,8 @@ def run_plan(plan):
   res["known"] = []
   res["stats"] = dict(sim.stats)
   res["probes"] = dict(sim.probes)
-  res["nontrivial"] = bool(eng is not None and eng.switches >= 5)
+  res["nontrivial"] = bool(eng is not None and (eng.switches >= 5
+                                                or cfg["workload"] == "w6"))
   return res
 
 
@@ -412,6 +428,48 @@ def _w5(sim, world, eng, plan):
         raise Violation("w5/late-wakeup", "task %d saw its data %.3f virtual "
                         "seconds after it was sent: the wake-up waited for a "
                         "polling timeout" % (i, t - max(ts)))
+
+
+# ---------------------------------------------------------------------------
+# W6: a burst of call-later hand-overs while the scheduler is held
+# ---------------------------------------------------------------------------
+
+def _w6(sim, world, eng, plan):
+  sched = world.sched
+  n = plan["steps"][0]["n"]
+  ran = []
+  done = [False]
+  t_release = [None]
+
+  def cb(j):
+    ran.append((j, world.on_sched_thread(), sim.now))
+  world.start_scheduler()
+
+  def body():
+    with sched.synchronized():
+      for j in range(n):
+        sched.callLater(cb, j)
+    t_release[0] = sim.now
+    done[0] = True
+  eng.spawn(body, "f0")
+  _controller(sim, world, eng, lambda: done[0] and len(ran) >= n,
+              timeout=20.0)
+  fin = eng.run()
+  sim.probes["w6_burst_%d" % n] += 1
+  _finish_check(sim, world, eng, fin, "w6")
+  if [j for j, _, _ in ran] != list(range(n)):
+    raise Violation("w6/handed-over-functions", "%d functions handed over in "
+                    "one burst; ran: %d, in order: %s"
+                    % (n, len(ran),
+                       [j for j, _, _ in ran] == sorted(j for j, _, _ in ran)))
+  if not all(on for _, on, _ in ran):
+    raise Violation("w6/wrong-thread", "a handed-over function ran off the "
+                    "scheduler thread")
+  late = [t - t_release[0] for _, _, t in ran if t - t_release[0] > S.EPS]
+  if late:
+    raise Violation("w6/late", "%d of the %d functions ran %.3f virtual "
+                    "seconds after the scheduler was let go (a polling "
+                    "timeout, not the wake-up)" % (len(late), n, max(late)))
 
 
 # ---------------------------------------------------------------------------
